@@ -120,7 +120,7 @@ CHECKS = {
         "configurations on the same input (value / error class / position equal unless the difference is one of the two documented ones): a cross-configuration difference is "
         "reported with the input as replay.",
    design="5/C20", technique="Lean 4 proof (case analysis on the initial byte) + six-configuration differential correspondence against the configured model",
-   note="partial: serde-bridge configurations (no-alloc bridge rejecting indefinite strings / collect_str) are not built separately yet; only x86-64 is compiled; message texts are not compared"),
+   note="the serde bridge is built in each of the six configurations too and compared across them (Deserializer on alloc-free types, deserialize_any on wire trees incl. indefinite strings, Serializer incl. collect_str), the two documented bridge differences (indefinite strings refused, collect_str an error without alloc) being the only accepted ones; the bridge has no model at configurations other than std+half (C17/C18), so there the comparison is between builds. Only x86-64 is compiled; message texts are not compared"),
  "C06": dict(
    text="Lean theorems (full, no partial fallback) about the model of both builds of Decoder::skip. skip_exact: for EVERY valid wire tree "
         "(arbitrarily nested definite/indefinite arrays and maps, chunked strings, tag chains, any head widths, unbounded size) followed by "
